@@ -134,7 +134,7 @@ def run_property(prop, tier="quick", seed=0, patch=None, quiet=False, only_units
                     out["undecided"].append((r.h.unit, "vacuity guard: %d of %d cover points unreachable" % (r.covers[1] - r.covers[0], r.covers[1])))
             # concrete playback for failing harnesses of THIS property (inside the lock: same tree)
             for fl in out["failures"]:
-                if fl.backend == "kani" and fl.prop == prop and not getattr(fl.harness, "_pb_done", False):
+                if fl.backend == "kani" and fl.prop == prop and not getattr(fl.harness, "_pb_done", False) and not os.environ.get("VERIF_NO_PLAYBACK"):
                     fl.harness._pb_done = True
                     test, praw = kani.playback(t, fl.harness, log=os.path.join(WORK, "playback.%s.log" % fl.harness.name), timeout=int(os.environ.get("VERIF_PLAYBACK_TIMEOUT", "420")))
                     fl.harness._pb = test or ""
